@@ -17,7 +17,7 @@ import YorkieModel.Model.IsPrint
 namespace Yorkie.Yson
 open IsPrintTables
 
-/-! ## strconv.Quote -/
+/-! ## quoteJSON (strconv.IsPrint decides what is written raw) -/
 
 def inRanges (c : Nat) : List (Nat × Nat) → Bool
   | [] => false
@@ -31,31 +31,32 @@ def isPrint (c : Nat) : Bool :=
 
 def hexDigit (n : Nat) : Nat := if n < 10 then 48 + n else 87 + n
 
-/-- strconv's appendEscapedRune for quote `"` (valid runes only) -/
+/-- one character of quoteJSON (yson.go, since the JSON-string-literal fix): what strconv.Quote
+writes wherever that is JSON with the same meaning, `\uXXXX` (a surrogate pair above U+FFFF)
+where strconv.Quote would use a Go-only escape (valid runes only) -/
 def quoteChar (c : Nat) : Str :=
   if c == 34 then [92, 34]
   else if c == 92 then [92, 92]
   else if isPrint c then [c]
-  else if c == 7 then [92, 97]
   else if c == 8 then [92, 98]
   else if c == 12 then [92, 102]
   else if c == 10 then [92, 110]
   else if c == 13 then [92, 114]
   else if c == 9 then [92, 116]
-  else if c == 11 then [92, 118]
-  else if c < 32 || c == 127 then [92, 120, hexDigit (c / 16), hexDigit (c % 16)]
   else if c < 0x10000 then
     [92, 117, hexDigit (c / 4096), hexDigit (c / 256 % 16), hexDigit (c / 16 % 16), hexDigit (c % 16)]
   else
-    [92, 85, hexDigit (c / 0x10000000 % 16), hexDigit (c / 0x1000000 % 16), hexDigit (c / 0x100000 % 16),
-     hexDigit (c / 0x10000 % 16), hexDigit (c / 4096 % 16), hexDigit (c / 256 % 16), hexDigit (c / 16 % 16),
-     hexDigit (c % 16)]
+    -- utf16.EncodeRune
+    [92, 117, hexDigit ((0xD800 + (c - 0x10000) / 1024) / 4096), hexDigit ((0xD800 + (c - 0x10000) / 1024) / 256 % 16),
+     hexDigit ((0xD800 + (c - 0x10000) / 1024) / 16 % 16), hexDigit ((0xD800 + (c - 0x10000) / 1024) % 16),
+     92, 117, hexDigit ((0xDC00 + (c - 0x10000) % 1024) / 4096), hexDigit ((0xDC00 + (c - 0x10000) % 1024) / 256 % 16),
+     hexDigit ((0xDC00 + (c - 0x10000) % 1024) / 16 % 16), hexDigit ((0xDC00 + (c - 0x10000) % 1024) % 16)]
 
 def quoteBody : Str → Str
   | [] => []
   | c :: r => quoteChar c ++ quoteBody r
 
-/-- strconv.Quote -/
+/-- quoteJSON -/
 def quote (s : Str) : Str := 34 :: (quoteBody s ++ [34])
 
 /-! ## Marshal -/
@@ -129,10 +130,10 @@ def marshal : Yson → Str
 def marshalList : List Yson → List Str
   | [] => []
   | x :: r => marshal x :: marshalList r
-/-- `"%s":%s` – the key is NOT escaped -/
+/-- `%s:%s` with quoteJSON(key) -/
 def marshalKvs : List (Str × Yson) → List Str
   | [] => []
-  | (k, x) :: r => ([34] ++ k ++ [34, 58] ++ marshal x) :: marshalKvs r
+  | (k, x) :: r => (quote k ++ [58] ++ marshal x) :: marshalKvs r
 end
 
 /-! ## preprocessTypeValues (since /repo commit 0cf3884e: string literals and object keys
@@ -479,32 +480,21 @@ def rootAtoms : Yson → List Atom
   | .obj kvs => atomsKvs kvs
   | v => atoms v
 
-/-- strconv.Quote writes an escape that JSON does not have -/
-def goOnlyEscape (c : Nat) : Bool :=
-  c != 34 && c != 92 && !isPrint c &&
-    (c == 7 || c == 11 || ((c < 32 || c == 127) && c != 8 && c != 12 && c != 10 && c != 13 && c != 9) || c ≥ 0x10000)
-
-def keyNeedsEscape (c : Nat) : Bool := c == 34 || c == 92 || c < 32
-
 inductive Tag where
-  | typeMember | goQuote | keyUnescaped | doubleNonFinite | dateRange
+  | typeMember | doubleNonFinite | dateRange
 deriving DecidableEq, Repr
 
 def Tag.name : Tag → String
   | .typeMember => "c18-type-member"
-  | .goQuote => "c18-go-quote"
-  | .keyUnescaped => "c18-key-unescaped"
   | .doubleNonFinite => "c18-double-nonfinite"
   | .dateRange => "c18-date-range"
 
 def Tag.all : List Tag :=
-  [.typeMember, .goQuote, .keyUnescaped, .doubleNonFinite, .dateRange]
+  [.typeMember, .doubleNonFinite, .dateRange]
 
 /-- does the atom exhibit the unsafe shape `t`? -/
 def Atom.hits : Atom → Tag → Bool
   | .typeMember, .typeMember => true
-  | .qstr s, .goQuote => s.any goOnlyEscape
-  | .key s, .keyUnescaped => s.any keyNeedsEscape
   | .dbl .nan, .doubleNonFinite => true
   | .dbl .posInf, .doubleNonFinite => true
   | .dbl .negInf, .doubleNonFinite => true
